@@ -316,7 +316,7 @@ def main():
     for s in given.get('scenarios', []):
         cases.append(from_scenario(s, rng))
     if tier != 'replay':
-        n_api, n_cli, n_sub = (500, 350, 4) if tier == 'quick' else (6000, 4000, 40)
+        n_api, n_cli, n_sub = (500, 350, 2) if tier == 'quick' else (6000, 4000, 20)
         for k in range(n_api):
             cases.append(random_case(rng, 'api', big=tier != 'quick' and k % 10 == 0))
         for k in range(n_cli):
